@@ -147,3 +147,12 @@ _r2("C17", "scalar logic of path.py regenerated (translator/tr_path.py) and prov
     "on acyclic conserved non-negative flows (sources listed once, disjoint from sinks) the subtract scheme with no path limit and cutoff <= 1 returns fluxes summing to at least cutoff x source outflow (c17_conserved_reaches_fraction); generated tests, reductions, constants and stopping rules equal the model's.",
     "the fraction theorem is over exact rationals (doubles checked by the oracle at 1e-9 x total); loop skeleton coq/Base/PathBase.v tied by correspondence.")
 CLAIMED["C17"] = (CLAIMED["C17"][0], CLAIMED["C17"][1], CLAIMED["C17"][2].replace("'conserved flow reaches the requested fraction' and 'input unchanged' rest on the oracle / array comparison only", "'input unchanged' rests on the array comparison and the translator's copy-first rule"), CLAIMED["C17"][3])
+_r2("C13", "the three kernels' loop nests and statements, fused types, wrappers and _get_distance_method regenerated (translator/tr_distkern.py) and proved equal to the PFor loop model",
+    "every statement of every generated prange iteration stays on its own cell, so the generated kernels give the specification value under any schedule and interleaving; metric names map to the right kernels.",
+    "out[k] op= e is treated as one atomic read-modify-write; translator/tr_distkern.py trusted.")
+_r2("C15", "load-bearing scalar expressions, slices and loop bodies regenerated from ra.py / util/load.py / mpi/io.py (translator/tr_store.py) and proved equal to the model",
+    "the node-name expression as written keeps keys sorted for every row count; generated lengths = ceil; generated prefix-sum offsets and worker windows are disjoint and cover the buffer; lengths are collected in file order; rank stripes hold item i at rank i mod size.",
+    "exact-rational reading of math.ceil(n/stride) (n < 2^53); translator/tr_store.py and coq/Base/StoreBase.v skeletons trusted.")
+_r2("C10", "per-label centre finder, compute_batches join-or-open test and the partition all-equal test regenerated from util.py (translator/tr_cluster.py) and proved equal to the model",
+    "generated tests plugged into code-shaped skeletons equal argmin_label / cb_loop / square.",
+    "")
